@@ -43,8 +43,9 @@ Record(s) == hist' = Append(hist, s)
 Init == heap = <<>> /\ hist = <<>>
 
 New == /\ ~Full
-       /\ \E c \in Classes, x \in {1, 2}, t \in NewTimes :
+       /\ \E c \in Classes, x \in {1, 2, Bad}, t \in NewTimes :
             /\ (c = "RT" => x = 1)
+            /\ (x = Bad => c \in {"M", "SX"})        \* built with skip_checks=True: no validation
             /\ heap' = Append(heap, Obj(c, FALSE, x, t))
             /\ Record(Step("new", 0, 0, "", 0, TRUE, Len(heap) + 1))
 
@@ -61,8 +62,13 @@ Copy == /\ ~Full
                   ELSE /\ heap' = heap
                        /\ Record(Step("copy", i, 0, "x", v, FALSE, 0))
              \/ \E tv \in {0, 7} :                      \* also the falsy value 0
-                /\ heap' = Append(heap, [heap[i] EXCEPT !.time = tv])
-                /\ Record(Step("copy", i, 0, "time", tv, TRUE, Len(heap) + 1))
+                \* (a copy with overrides validates the whole message, like the constructor:
+                \* an object that was built unchecked and holds Bad cannot be copied this way)
+                IF heap[i].cls = "RT" \/ ValidX(heap[i].cls, heap[i].x)
+                THEN /\ heap' = Append(heap, [heap[i] EXCEPT !.time = tv])
+                     /\ Record(Step("copy", i, 0, "time", tv, TRUE, Len(heap) + 1))
+                ELSE /\ heap' = heap
+                     /\ Record(Step("copy", i, 0, "time", tv, FALSE, 0))
 
 Freeze == \E i \in DOMAIN heap :
             IF heap[i].frozen
@@ -111,11 +117,18 @@ HashVariant == \E i \in DOMAIN heap :
                  /\ heap' = heap
                  /\ Record(Step("hashf", i, 0, "", 0, TRUE, 0))
 
+\* ... and one that came into being by another route (decoded from its bytes instead of
+\* constructed): equal, so equal hashes
+HashDecoded == \E i \in DOMAIN heap :
+                 /\ heap[i].frozen /\ heap[i].x # Bad /\ heap[i].cls \in {"M", "SX", "RT", "MM", "SS"}
+                 /\ heap' = heap
+                 /\ Record(Step("hashd", i, 0, "", 0, TRUE, 0))
+
 NoneMaps == /\ heap' = heap
             /\ \E op \in {"freeze_none", "thaw_none"} : Record(Step(op, 0, 0, "", 0, TRUE, 0))
 
 Next == /\ Len(hist) < MaxOps
-        /\ (New \/ Copy \/ Freeze \/ Thaw \/ SetAttr \/ SetNew \/ DelAttr \/ HashEq \/ HashVariant \/ NoneMaps)
+        /\ (New \/ Copy \/ Freeze \/ Thaw \/ SetAttr \/ SetNew \/ DelAttr \/ HashEq \/ HashVariant \/ HashDecoded \/ NoneMaps)
 Spec == Init /\ [][Next]_vars
 
 \* ---- properties ----
@@ -130,12 +143,13 @@ FrozenRejectsMutation ==
         ~(IF n = 1 THEN FALSE ELSE hist[n-1].heap[hist[n].i].frozen)
 FrozenNeverChanges ==
   [][\A k \in DOMAIN heap : heap[k].frozen => heap'[k] = heap[k]]_vars
-AllValidOrUnknown == \A k \in DOMAIN heap : heap[k].cls = "RT" \/ ValidX(heap[k].cls, heap[k].x)
+\* (objects of the classes that can be built unchecked may hold the out-of-range value)
+AllValidOrUnknown == \A k \in DOMAIN heap : heap[k].cls \in {"RT", "M", "SX"} \/ ValidX(heap[k].cls, heap[k].x)
 
 ClsCode(c) == CASE c = "M" -> 1 [] c = "MM" -> 2 [] c = "SS" -> 3 [] c = "UM" -> 4 [] c = "RT" -> 5 [] c = "SX" -> 6
 OpCode(o) == CASE o = "new" -> 1 [] o = "copy" -> 2 [] o = "freeze" -> 3 [] o = "thaw" -> 4
                [] o = "setattr" -> 5 [] o = "hash" -> 6 [] o = "freeze_none" -> 7 [] o = "thaw_none" -> 8 [] o = "hashf" -> 9
-               [] o = "delattr" -> 10 [] o = "setnew" -> 11
+               [] o = "delattr" -> 10 [] o = "setnew" -> 11 [] o = "hashd" -> 12
 HeapFlat(h) == <<Len(h)>> \o [k \in 1..(4 * Len(h)) |->
                   LET o == h[((k - 1) \div 4) + 1] IN
                   CASE (k - 1) % 4 = 0 -> ClsCode(o.cls) [] (k - 1) % 4 = 1 -> (IF o.frozen THEN 1 ELSE 0)
